@@ -98,4 +98,19 @@ theorem local_assign_before_bind_fails :
       ∃ srv ∈ (hist.foldl loadAssignFirst Life.init).liveLocal, srv.addr = 0 ∧ srv.tight = false :=
   ⟨[⟨.listen 0 false, none⟩, ⟨.blocked, none⟩, ⟨.listen 0 true, none⟩], by decide⟩
 
+/-- **a REJECTED config's local admin policy takes effect** (`caddy.go run`: the local endpoint is
+    replaced before the rest of the load can fail).  Read with "allowed origin" = allowed by the
+    running config, the Host clause fails of the tree: (1) the running config allows only
+    c13-only.example on address 0; a config with default origins is rejected while provisioning its
+    apps — afterwards the server on address 0 serves the Host 127.0.0.1:port; (2) a rejected config
+    names another address — an admin endpoint the running config never configured listens there.
+    Protocol lines: `witnessLines`. -/
+theorem local_endpoint_of_running_config_full_fails :
+    (∃ hist, localAsRunning hist = false ∧
+       (afterAttempts hist).liveLocal = [⟨1, 0, false⟩] ∧ runningConfig hist = some ⟨.listen 0 true, none⟩) ∧
+    (∃ hist, localAsRunning hist = false ∧
+       (afterAttempts hist).liveLocal = [⟨1, 1, false⟩] ∧ runningConfig hist = some ⟨.listen 0 false, none⟩) :=
+  ⟨⟨[⟨⟨.listen 0 true, none⟩, .none⟩, ⟨⟨.listen 0 false, none⟩, .prov⟩], by decide⟩,
+   ⟨[⟨⟨.listen 0 false, none⟩, .none⟩, ⟨⟨.listen 1 false, none⟩, .prov⟩], by decide⟩⟩
+
 end CaddyModel.C13
